@@ -8,8 +8,9 @@ from cxx2c import Ty
 
 
 class MSpec:
-    def __init__(self, name, mode, ensures, requires=None, arrays=None, models=None, timeout=60, tier="quick", known=None, alias=None, tol=1e-4, nonneg=False, ranges=False, replay_native=None, exact_f32=False):
+    def __init__(self, name, mode, ensures, requires=None, arrays=None, models=None, timeout=60, tier="quick", known=None, alias=None, tol=1e-4, nonneg=False, ranges=False, replay_native=None, exact_f32=False, prefer=None):
         self.ranges = ranges
+        self.prefer = prefer
         self.exact_f32 = exact_f32
         self.replay_native = replay_native
         self.name, self.mode, self.ensures = name, mode, ensures
@@ -121,6 +122,19 @@ def run_mjob(job):
                       status={"proved": "SUCCESS", "refuted": "FAILURE", "unknown": "UNKNOWN"}[stt], desc="%s %s [z3 %s, %.2fs]" % (kind, lab, ms.mode, dt), line=0, fn=ms.name)
             if stt == "refuted":
                 n_fail += 1
+                if getattr(ms, "prefer", None) is not None:
+                    # a counterexample away from the rounding boundary replays more reliably: ask for one, keep the first otherwise
+                    try:
+                        s2 = z3.Solver()
+                        s2.set("timeout", 20000)
+                        for a in assumptions + ev.side:
+                            s2.add(a)
+                        s2.add(z3.Not(g))
+                        s2.add(ms.prefer(P, RET, Q, G))
+                        if s2.check() == z3.sat:
+                            model = s2.model()
+                    except Exception:
+                        pass
                 vals = {}
                 for d in model.decls():
                     nm = d.name()
